@@ -466,7 +466,9 @@ def qnwunif(n, a, b):
     """
     n, a, b = list(map(np.asarray, [n, a, b]))
     nodes, weights = qnwlege(n, a, b)
-    weights = weights / np.prod(b - a)
+    # Volume of the box; a and b may be scalars while n is a vector
+    d = max(np.size(n), np.size(a), np.size(b))
+    weights = weights / np.prod(np.broadcast_to(np.subtract(b, a), (d,)))
     return nodes, weights
 
 
